@@ -119,6 +119,19 @@ def check_cells(cells, part, group, case_of):
     for index in range(len(cells), len(flat)):
         if flat[index] != "":
             part.fail("%s|padding-cell-not-empty" % group, case_of(0), "", flat[index])
+    if cells and all(kind == "d" and not isinstance(value, datetime.datetime) for kind, value in cells):
+        # date cells under a CID that declares date-only DateTime fields: validation must not change what the reader returns
+        import cutplace
+
+        cid_rows = [["D", "Format", "Excel"]] + [["F", "d%d" % i, "", "X", "", "DateTime", "YYYY-MM-DD"] for i in range(len(rows[0]))]
+        try:
+            validated = [list(row) for row in list(cutplace.rows(harness.make_cid(cid_rows), path))]
+        except Exception as error:
+            validated = "raised-%s: %s" % (type(error).__name__, error)
+        part.transitions += 1
+        part.validated += 1
+        if validated != [list(row) for row in rows]:
+            part.fail("%s|rows-changed-by-validation" % group, case_of(0), rows[:2], validated[:2] if isinstance(validated, list) else validated)
 
 
 def judge(case, part):
@@ -211,7 +224,7 @@ def judge_sheets(case, part):
 
 def judge_writer(case, part):
     m = harness.modules()
-    table = case["table"]
+    table = case["table"] if "long" not in case else [["y" * case["long"], "z"]]
     path = path_for("writer")
     part.evaluations += 1
     part.nontrivial += 1
@@ -223,6 +236,9 @@ def judge_writer(case, part):
                 for row in table:
                     writer.write_row(row)
     except Exception as error:
+        if isinstance(error, m["errors"].DataFormatError) and any(len(cell) > 32767 for row in table for cell in row):
+            part.outcome("writer-refuses-cell-beyond-the-format-limit")  # an xlsx cell holds at most 32767 characters: refusing loudly is not a changed table
+            return
         part.fail("writer|%s-raised-%s" % (case.get("api", "write_row"), type(error).__name__), case, "written", repr(error))
         return
     width = max(len(row) for row in table)
@@ -231,7 +247,7 @@ def judge_writer(case, part):
     part.transitions += 2
     part.validated += 1
     if (rows if outcome == "rows" else outcome) != expected:
-        part.fail("writer|table-does-not-read-back", case, expected, rows)
+        part.fail("writer|table-does-not-read-back%s" % (":" + case["what"] if case.get("what") else ""), case, expected if len(str(expected)) < 2000 else "<first cell has %d characters>" % len(expected[0][0]), rows if len(str(rows)) < 2000 else "<first cell has %d characters>" % len(rows[0][0]))
 
 
 def judge_layout(case, part):
@@ -337,6 +353,12 @@ def run(ctx):
     tables = [t for t in c15.STRUCTURED if t and all(len(r) for r in t)] + c15.small_tables(c15.SMALL, [(1, 1), (1, 2), (2, 2)] if quick else [(1, 1), (1, 2), (2, 2), (2, 3)])
     for index, table in enumerate(tables):
         misc.append({"group": "writer", "table": table, "api": "write_rows" if index % 2 else "write_row", "cells": []})
+    # strings that look like markup, formulas or numbers, and strings at the cell size limit of the file format
+    for name, cell in (("markup", "<r>x</r>"), ("markup", "<r><t>x</t></r>"), ("tag", "<t>x</t>"), ("formula", "=1+1"), ("array-formula", "{=1+1}"), ("number", "007"), ("number", "1e3"), ("url", "http://example.com/"),
+                       ("mail", "mailto:a@example.com"), ("internal", "internal:Sheet1!A1"), ("quote-prefix", "'x")):
+        misc.append({"group": "writer", "table": [[cell, "z"]], "api": "write_row", "cells": [], "what": name})
+    for length in (32766, 32767, 32768, 40000):
+        misc.append({"group": "writer", "long": length, "api": "write_row", "cells": [], "what": "%d-characters" % length})
     # sparse sheets: every table of up to 4 rows x 3 columns over {empty, 'a'} (quick: up to 3 x 3), cells stored only where not empty
     layouts = 0
     for height in range(1, 4 if quick else 5):
